@@ -7,7 +7,8 @@ import numpy as np
 from common import call_impl, coq_bool, coq_list, coq_nat, flv, q, qv
 
 TOL = Fr(1e-8)  # tol.merge as the binary64 value
-REL = Fr(1, 10 ** 12)  # oracle slack relative to the coordinate magnitude (a handful of flops, no cancellation beyond the offset)
+REL = Fr(1, 10 ** 11)  # oracle slack relative to the FEATURE size (largest |v - reference point|): a handful of flops
+UEPS = Fr(1, 2 ** 50)  # ... plus 4 units in the last place of the coordinate magnitude: binary64 cannot store a point better
 UNSIGNED_FACES = True  # generate uint8/uint32/uint64 face arrays: on once fixes/C02-unsigned-faces.diff is in /repo
 TRUSTED = ["Coq 8.16.1 kernel, vm_compute for the correspondence evaluation and the finite sign-pattern claims",
            "axioms (Print Assumptions): ClassicalDedekindReals.sig_forall_dec, sig_not_dec, "
@@ -27,8 +28,12 @@ ASSUMPTIONS = ["theorems are about exact real arithmetic; binary64 rounding is c
                "arrays — validated, not proved; shapes ((k,3) / (m,3) / (m,)) are validated only",
                "negative (NumPy wrap-around) face entries are modelled by a separate layer (slice_faces_plane_z); the geometric "
                "theorems are stated for non-negative entries, to which that layer reduces",
-               "coordinate scales above ~2^18 are not generated: there the binary64 rounding of a cut vertex can exceed the "
-               "1e-8 band (idempotence is an exact-arithmetic fact)"]
+               "coordinate magnitudes above ~2^18 times the mesh size are generated only in the far_offset_exact stream (unit mesh "
+               "translated by up to 7*2^28): there binary64 cannot place a cut vertex within 1e-8 of the plane (one ulp is up to "
+               "4.8e-7), so the re-slice (idempotence) comparison of the oracle is skipped for those cases when the result has "
+               "new vertices; everything else is judged, with tolerances relative to the mesh size, not to the coordinates",
+               "tolerances on lengths are 1e-11 * feature size (largest |v - reference point|) + 4 ulp of the coordinate "
+               "magnitude, in the correspondence check and in the oracle alike; every discrete output is compared exactly"]
 CASE_IMPORTS = [("PW.model", "M_slicing")]
 
 
@@ -69,8 +74,65 @@ def gen_plane(rng, kind):
     return ref, [float(x) for x in n], None, None
 
 
+def gen_far_case(rng, profile):
+    """Stream far_offset_exact: a unit-size mesh on a dyadic grid, translated by a large dyadic offset (|T| up to 7*2^28 per axis,
+    mixed signs; every coordinate is still exact, <= 51 bits), a plane whose normal has 16-24 significant bits per component and is
+    not unit, and vertices EXACTLY on the plane (reference + integer combinations of (b,-a,0), (0,c,-b)).  Differences
+    `vertex - reference` are exact and so are their products with the normal and the sums (<= 51 bits), so the code as it is
+    computes every offset exactly; a formula that multiplies the big coordinates first must round by ~|T| 2^-53 |n| >> 1e-8.
+    Model and implementation must agree on every discrete output, and on coordinates to 1e-11 * mesh size + 4 ulp."""
+    T = [rng.choice([1.0, -1.0]) * rng.choice([1, 3, 5, 7]) * 2.0 ** rng.randint(24, 28) for _ in range(3)]
+    n = [rng.choice([1.0, -1.0]) * (rng.randrange(2 ** 15, 2 ** 23) | 1) / 2.0 ** 20 for _ in range(3)]
+    if rng.random() < 0.2:
+        n[rng.randrange(3)] = 0.0
+    a, b, c = n
+    t1, t2 = [b, -a, 0.0], [0.0, c, -b]
+    if not any(t1):
+        t1 = [c, 0.0, -a]
+    if not any(t2):
+        t2 = [c, 0.0, -a]
+    ref_local = [rng.randint(-16, 16) / 8 for _ in range(3)]
+    ref = [T[j] + ref_local[j] for j in range(3)]
+    nv, nf = rng.randint(3, 12), rng.randint(1, 12)
+    vs = []
+    for _ in range(nv):
+        r = rng.random()
+        if r < 0.4:
+            al, be = rng.randint(-3, 3), rng.randint(-3, 3)
+            vs.append([ref[j] + (al * t1[j] + be * t2[j]) for j in range(3)])  # exactly on the plane
+        elif r < 0.45:
+            vs.append(list(ref))
+        else:
+            vs.append([T[j] + rng.randint(-64, 64) / rng.choice([8, 16, 64]) for j in range(3)])
+    for v in vs:  # the construction promises exact differences: fail closed if a coordinate did not fit
+        for j in range(3):
+            assert Fr(v[j]) - Fr(ref[j]) == Fr(v[j] - ref[j]) and abs(v[j]) < 2.0 ** 32
+    if nv >= 2 and rng.random() < 0.2:
+        vs[rng.randrange(nv)] = list(vs[rng.randrange(nv)])
+    fs = []
+    for _ in range(nf):
+        r = rng.random()
+        if r < 0.1:
+            x, y = rng.randrange(nv), rng.randrange(nv)
+            fs.append(rng.choice([[x, x, y], [x, y, x], [x, x, x]]))
+        else:
+            fs.append([rng.randrange(nv) for _ in range(3)])
+    m = rng.random()
+    mask = None if m < 0.6 else ([rng.random() < 0.6 for _ in fs] if m < 0.9 else [False for _ in fs])
+    fdtype = rng.choice(["int64", "int64", "int64", "int32", "uint32" if UNSIGNED_FACES else "int16"])
+    tags = ["mask:" + ("none" if mask is None else ("allF" if not any(mask) else ("allT" if all(mask) else "mixed")))]
+    if fdtype != "int64":
+        tags.insert(0, "f:" + fdtype)
+    return {"kind": "far_offset_exact", "far": True, "buckets": tags, "vdtype": "float64", "fdtype": fdtype, "vertices": vs,
+            "faces": fs, "ref": ref, "normal": n, "mask": mask,
+            "ret_face_mapping": rng.random() < (0.6 if profile == "geom" else 0.75),
+            "int32": fdtype == "int32", "has_near": False, "inexact": False}
+
+
 def gen_mesh_case(rng, tier, profile):
     """profile 'geom' (C01) or 'struct' (C02): same streams, different mix."""
+    if rng.random() < 0.1:
+        return gen_far_case(rng, profile)
     u = rng.random()
     pk = rng.random()
     plane_kind = "axis" if pk < 0.4 else ("dyadic" if pk < 0.85 else "float")
@@ -365,18 +427,17 @@ def clipped_area2(t, ds):
     return tot
 
 
-def point_in_face(w, t, slack):
-    """is w in the convex hull of the corners of t (relative slack)?  Exact rationals."""
+def point_in_face(w, t, atol):
+    """is w in the convex hull of the corners of t, up to the absolute distance atol?  Exact rationals."""
     N = varea2(t)
     nn = dot(N, N)
-    mag = max([abs(x) for p in t for x in p] + [abs(x) for x in w])  # no absolute floor: tiny meshes are judged too
     if nn > 0:
         # barycentric weights through sub-triangle areas projected on N
         ws = [dot(varea2([w, t[1], t[2]]), N) / nn, dot(varea2([t[0], w, t[2]]), N) / nn, dot(varea2([t[0], t[1], w]), N) / nn]
         off = dot(sub(w, t[0]), N)  # distance from the face's plane times |N|
-        if off * off > (slack * mag) ** 2 * nn:
+        if off * off > atol ** 2 * nn:
             return False
-        if all(x >= -slack for x in ws):
+        if all(x >= 0 for x in ws):
             return True
         # sliver faces make the weights ill-conditioned: fall through to the distance from the face's outline
     # degenerate (or sliver) face: distance to the nearest edge
@@ -390,7 +451,7 @@ def point_in_face(w, t, slack):
             r = sub(w, [p[k] + s * e[k] for k in range(3)])
             dist2 = dot(r, r)
             best = dist2 if best is None or dist2 < best else best
-    return best <= (slack * mag) ** 2
+    return best <= atol ** 2
 
 
 def expected_rule(signs, selected):
@@ -406,6 +467,17 @@ def expected_rule(signs, selected):
 
 def close_vec(a, b, rel, mag):
     return all(abs(x - y) <= rel * mag for x, y in zip(a, b))
+
+
+def length_tolerance(c, rel=REL):
+    """(absolute tolerance on a length / coordinate, feature size).  The feature size is the largest |v - reference point| over
+    the input vertices, NOT the coordinate magnitude: a small mesh far from the origin is judged as strictly as the same mesh at
+    the origin; binary64 cannot store a point better than an ulp of its magnitude, hence the second term."""
+    V = [F3(v) for v in c["vertices"]]
+    ref = F3(c["ref"])
+    vmag = max([Fr(0)] + [abs(x) for v in V for x in v] + [abs(x) for x in ref])
+    feat = max([Fr(0)] + [abs(x) for v in V for x in sub(v, ref)])
+    return rel * feat + UEPS * vmag, feat
 
 
 def geometry_failure(c, full, rel=REL):
@@ -425,11 +497,10 @@ def geometry_failure(c, full, rel=REL):
     if any(not (0 <= i < len(outV)) for f in outF for i in f):
         return "an output face indexes a vertex that was not returned"
     d = [dot(n, sub(v, ref)) for v in V]
-    nmag = max(abs(x) for x in n)
-    vmag = max([Fr(0)] + [abs(x) for v in V for x in v] + [abs(x) for x in ref])  # no absolute floor
+    nsum = sum(abs(x) for x in n)
+    ltol, feat = length_tolerance(c, rel)
     # the kernel works on snapped distances: a corner inside the band is cut AT that corner, so the expected clipped face
     # (computed below from the snapped distances) is met to rounding also when corners sit inside the band
-    loose = rel
     by_src = {}
     for j, i in enumerate(mp):
         by_src.setdefault(i, []).append(j)
@@ -459,18 +530,18 @@ def geometry_failure(c, full, rel=REL):
         for o3 in outs:
             for w in o3:
                 dw = dot(n, sub(w, ref))
-                if dw < -TOL - loose * nmag * vmag:
+                if dw < -TOL - ltol * nsum:
                     return "output vertex %s from face %d lies behind the plane by %.3g" % ([float(x) for x in w], i, float(-dw))
-                if not point_in_face(w, t, loose * 10):
+                if not point_in_face(w, t, ltol * 10):
                     return "output vertex %s lies outside input face %d it came from" % ([float(x) for x in w], i)
             a = varea2(o3)
-            if dot(a, N) < -loose * vmag ** 4:
+            if dot(a, N) < -10 * ltol * feat ** 3:
                 return "output triangle from face %d has flipped orientation" % i
             cr = cross(a, N)
-            if dot(cr, cr) > (loose * vmag ** 4) ** 2:
+            if dot(cr, cr) > (10 * ltol * feat ** 3) ** 2:
                 return "output triangle from face %d is not in the plane of that face" % i
             got = [x + y for x, y in zip(got, a)]
-        if not close_vec(got, want, loose * 100, vmag ** 2):
+        if not close_vec(got, want, 100 * ltol, feat):
             return ("outputs of face %d (signs %s) do not tile its clipped part: area %s, expected %s"
                     % (i, signs, [float(x) for x in got], [float(x) for x in want]))
     return None
